@@ -37,7 +37,7 @@ MIN_PER_WORKER = 2
 
 
 def cases(tier, seed):
-    n = 120 if tier == "quick" else 4000
+    n = 120 if tier == "quick" else 16000
     return [{"rep": i, "seed": seed} for i in range(n)]
 
 
